@@ -69,6 +69,26 @@ def entryIdxForPacket (tbl : Table α) (p : PHdr) (inPort : Nat) : Option Nat :=
   let i := tbl.findIdx (Entry.accepts (fromPacket p inPort))
   if i < tbl.length then some i else none
 
+/-! ## the same, for any sort key
+
+`add_entry` sorts by `entry.effective_priority`, whatever that property computes; the proposed repair of D26 changes what it
+computes (`Model/MatchV.lean`).  The table code below is therefore written once for an arbitrary key; `addEntry?` above is the
+instance `key = Entry.effectivePriority` (`addEntry?_eq_by`). -/
+
+def addEntryBy? (key : Entry α → Nat) (e : Entry α) (tbl : Table α) : Option (Table α) :=
+  (insertPos? (key e) (tbl.map key)).map (fun k => insertAt k e tbl)
+
+def addEntryBy (key : Entry α → Nat) (e : Entry α) (tbl : Table α) : Table α :=
+  match addEntryBy? key e tbl with
+  | some t => t
+  | none => tbl
+
+theorem addEntry?_eq_by (e : Entry α) (tbl : Table α) : addEntry? e tbl = addEntryBy? Entry.effectivePriority e tbl := rfl
+theorem addEntry_eq_by (e : Entry α) (tbl : Table α) : addEntry e tbl = addEntryBy Entry.effectivePriority e tbl := rfl
+
+/-- `entry_for_packet` given the packet's match -/
+def lookup (tbl : Table α) (pm : OfMatch) : Option (Entry α) := tbl.find? (Entry.accepts pm)
+
 /-! ## every mutating operation of `FlowTable` -/
 namespace TableOps
 
@@ -90,17 +110,18 @@ inductive Op (α : Type) where
   | expire (dead : Entry α → Bool)
 
 /-- the table after the call, and whether the call raised -/
-def step (tbl : Table α) : Op α → Table α × Bool
-  | .add e => (match addEntry? e tbl with
+def step (key : Entry α → Nat) (tbl : Table α) : Op α → Table α × Bool
+  | .add e => (match addEntryBy? key e tbl with
       | some t => (t, false)
-      | none => (tbl, true))                                   -- IndexError (never happens: `addEntry?_eq_some`)
+      | none => (tbl, true))                                   -- IndexError (never happens: `addEntryBy?_eq_some`)
   | .removeAt i => if i < tbl.length then (tbl.eraseIdx i, false) else (tbl, true)    -- ValueError
   | .removeMatching m pr strict portOk => (tbl.filter (fun e => !selectedBy m pr strict portOk e), false)
   | .expire dead => (tbl.filter (fun e => !dead e), false)
 
-/-- the table after a sequence of calls on an empty `FlowTable` (calls that raise leave it unchanged) -/
-def runFrom (tbl : Table α) (ops : List (Op α)) : Table α := ops.foldl (fun t op => (step t op).1) tbl
-def run (ops : List (Op α)) : Table α := runFrom [] ops
+/-- the table after a sequence of calls (calls that raise leave it unchanged) -/
+def runFrom (key : Entry α → Nat) (tbl : Table α) (ops : List (Op α)) : Table α := ops.foldl (fun t op => (step key t op).1) tbl
+/-- … on an empty `FlowTable` -/
+def run (key : Entry α → Nat) (ops : List (Op α)) : Table α := runFrom key [] ops
 
 /-- the entries handed to `add_entry` in a history -/
 def added : List (Op α) → List (Entry α)
